@@ -738,10 +738,33 @@ let gebr_inst (c : case) : GebrDefs.state inst =
     step = (fun st t _ -> GebrDefs.step cfg nslots st (Step (nat_of_int t)));
     pctag = (fun st t -> let p = st.th (nat_of_int t) in if Obj.is_int (Obj.repr p) then "i" ^ string_of_int (Obj.magic p : int) else string_of_int (Obj.tag (Obj.repr p))); nm }
 
+(* ---------------------------------------------------------------- stamp_it reclaimer with the generic client (C01/C02) *)
+let stamp_inst (c : case) : StampDefs.state inst =
+  let open StampDefs in
+  let ncells = n_of_int (int_of_string (cfg_get c "cells" "2")) in
+  let nslots = nat_of_int (int_of_string (cfg_get c "slots" "3")) in
+  let nm = {
+    named = (fun i -> if i = 0 then "tbl_head" else if i = 1 then "global_retired" else if i = 2 then "head" else if i = 3 then "tail" else "cell" ^ string_of_int (i - 10));
+    opname = (function 0 -> "repl" | 1 -> "clear" | 2 -> "read" | 3 -> "hold" | 4 -> "drop" | 5 -> "deref" | 6 -> "enter" | 7 -> "leave" | _ -> "?");
+    resname = (fun r -> match List.map int_of_n r with [0] -> "ok" | [1] -> "lost" | [2] -> "null" | [3; _] -> string_of_n (List.nth r 1) | _ -> "?");
+    note = no_note } in
+  { init = StampDefs.init ncells;
+    idle = (fun st t -> match st.th (nat_of_int t) with Idle -> true | _ -> false);
+    start = (fun st t (name, args) ->
+      let n i = n_of_string (List.nth args i) and s i = nat_of_int (int_of_string (List.nth args i)) in
+      let o = match name with
+        | "repl" -> ORepl (n 0) | "clear" -> OClear (n 0) | "read" -> ORead (n 0) | "hold" -> OHold (n 0, s 1)
+        | "drop" -> ODrop (s 0) | "deref" -> ODeref (s 0) | "enter" -> OEnter | "leave" -> OLeave | _ -> OExit in
+      match StampDefs.step nslots st (Start (nat_of_int t, o)) with Some (s', _) -> Some s' | None -> None);
+    step = (fun st t _ -> StampDefs.step nslots st (Step (nat_of_int t)));
+    pctag = (fun st t -> let p = st.th (nat_of_int t) in
+      let tg x = if Obj.is_int (Obj.repr x) then "i" ^ string_of_int (Obj.magic x : int) else string_of_int (Obj.tag (Obj.repr x)) in
+      match p with Rm (q, _) -> "rm" ^ tg q | _ -> tg p); nm }
+
 let () =
   let model = Sys.argv.(1) and cmd = Sys.argv.(2) and path = Sys.argv.(3) in
   let c = parse_case path in
-  let c = if model = "ebr" || model = "qsbr" || model = "lfrc" || model = "gebr" then ebr_with_exit c else c in
+  let c = if model = "ebr" || model = "qsbr" || model = "lfrc" || model = "gebr" || model = "stamp" then ebr_with_exit c else c in
   let go inst =
     match cmd with
     | "run" ->
@@ -784,4 +807,5 @@ let () =
   | "vhmgrow" -> go (vhmgrow_inst c)
   | "nikq" -> go (nikq_inst c)
   | "gebr" -> go (gebr_inst c)
+  | "stamp" -> go (stamp_inst c)
   | _ -> prerr_endline ("unknown model " ^ model); exit 2
